@@ -25,56 +25,7 @@ theorem passing_literals :
   repeat' apply And.intro
   all_goals first | rfl | decide
 
-/-- `passingServices` (v0 result, v1 outer element, v2 total, v3 passing, v4 inner element; p0 checks, p1 statuses,
-p2 strict; helper0 = isServiceCheck, helper1 = hasStatus): only service checks are considered; the inner loop runs
-over the *same* list; on the same node: a check of the same service id counts (and counts as passing when its
-status is accepted); then, in this order, critical serfHealth / `_node_maintenance` with any status / critical
-`_service_maintenance:<id of the outer element>` leave the outer iteration; the element is appended iff
-`passing != 0` and (not strict or total == passing). This is the model's `inner` / `keep`. -/
-theorem passing_services_shape :
-    Generated.C01.passingServicesActions =
-      ["range p0",
-       "> helper0(v1) => range p0",
-       ">> v1.Node == v4.Node & v1.ServiceID == v4.ServiceID => v2++",
-       ">> v1.Node == v4.Node & v1.ServiceID == v4.ServiceID & helper1(v4, p1) => v3++",
-       ">> v1.Node == v4.Node & \"serfHealth\" == v4.CheckID & \"critical\" == v4.Status => continue L0",
-       ">> v1.Node == v4.Node & \"serfHealth\" != v4.CheckID & \"_node_maintenance\" == v4.CheckID => continue L0",
-       ">> v1.Node == v4.Node & \"serfHealth\" == v4.CheckID & \"critical\" != v4.Status & \"_node_maintenance\" == v4.CheckID => continue L0",
-       ">> v1.Node == v4.Node & \"serfHealth\" != v4.CheckID & \"_node_maintenance\" != v4.CheckID & \"_service_maintenance:\" + v1.ServiceID == v4.CheckID & \"critical\" == v4.Status => continue L0",
-       "> helper0(v1) & 0 != v3 & !p2 => v0 = append(v0, v1)",
-       "> helper0(v1) & 0 != v3 & p2 & v2 == v3 => v0 = append(v0, v1)",
-       "return v0"] := by
-  repeat' apply And.intro
-  all_goals first | rfl | decide
-
-/-- `isServiceCheck` (helper0) and `hasStatus` (helper1) -/
-theorem passing_helpers_shape :
-    Generated.C01.passingHelperCount = 2 ∧
-    Generated.C01.passingHelper0Actions =
-      ["return \"\" != p0.ServiceID & \"serfHealth\" != p0.CheckID & \"_node_maintenance\" != p0.CheckID & !(strings.HasPrefix(p0.CheckID, \"_service_maintenance:\"))"] ∧
-    Generated.C01.passingHelper1Actions = ["range p1",
-       "> p0.Status == v0 => return true",
-       "return false"] := by
-  repeat' apply And.intro
-  all_goals first | rfl | decide
-
 /-! ### `service.go` -/
-
-/-- `checksWithTagPrefix` (p0 prefix, p1 checks, v0 result, v1 element, v2 tag): serf / node-maintenance /
-`_service_maintenance…` checks are appended unconditionally, any other check once if one of its tags, trimmed as
-`routecmd.build` trims it (repair of D27), has the prefix -/
-theorem filter_shape :
-    Generated.C01.checksWithTagPrefixActions =
-      ["range p1",
-       "> \"serfHealth\" == v1.CheckID => v0 = append(v0, v1)",
-       "> \"serfHealth\" != v1.CheckID & \"_node_maintenance\" == v1.CheckID => v0 = append(v0, v1)",
-       "> \"serfHealth\" != v1.CheckID & \"_node_maintenance\" != v1.CheckID & strings.HasPrefix(v1.CheckID, \"_service_maintenance\") => v0 = append(v0, v1)",
-       "> \"serfHealth\" != v1.CheckID & \"_node_maintenance\" != v1.CheckID & !(strings.HasPrefix(v1.CheckID, \"_service_maintenance\")) => range v1.ServiceTags",
-       ">> strings.HasPrefix(strings.TrimSpace(v2), p0) => v0 = append(v0, v1)",
-       ">> strings.HasPrefix(strings.TrimSpace(v2), p0) => break",
-       "return v0"] := by
-  repeat' apply And.intro
-  all_goals first | rfl | decide
 
 /-- `Watch`: health state → filter (configured prefix) → passing (of the *filter's result*, configured statuses,
 strict flag = the field `f3` of the monitor) → makeConfig (of the passing result) → send; `f3` is initialised with
@@ -113,21 +64,6 @@ theorem join_key_same_on_both_sides :
 
 /-! ### faults and index anomalies -/
 
-/-- the lookup function (`serviceConfig`; p0 service name, p1 passing set, r0 result): nothing for the empty name or
-an empty set; the catalog is asked for *that name*; **on a lookup error it returns nil**; otherwise the commands built
-in this call for the entries whose key is in the set (model: `joinedF`) -/
-theorem service_config_nil_on_lookup_error :
-    Generated.C01.lookupActions =
-      ["\"\" == p0 => return nil",
-       "\"\" != p0 & 0 == len(p1) => return nil",
-       "\"\" != p0 & 0 != len(p1) => Service#0, _, Service#2 := recv.f0.Catalog().Service(p0, \"\", v0)",
-       "\"\" != p0 & 0 != len(p1) & Service#2 != nil => return nil",
-       "\"\" != p0 & 0 != len(p1) & Service#2 == nil => range Service#0",
-       "> v3 => r0 = append(r0, build#0...)",
-       "\"\" != p0 & 0 != len(p1) & Service#2 == nil => return r0"] := by
-  repeat' apply And.intro
-  all_goals first | rfl | decide
-
 /-- `ServiceMonitor` keeps no state between rounds: its fields are a client, the configuration, a string and a bool
 (whatever they are called), no method assigns to a field of the receiver, and the package has no package-level
 variable — each emitted text is a function of the round's own answers (model: `watchOnceF` has no state argument) -/
@@ -138,51 +74,22 @@ theorem service_monitor_stateless :
   repeat' apply And.intro
   all_goals first | rfl | decide
 
-/-- `watchKV` (p2 channel, v0 remembered index, v1 remembered value, helper0 = listKV called with the remembered
-index as wait index): on an error pause; otherwise publish and remember iff the value or the index differs — a
-*change* test, no ordering comparison on the index (an index that goes backwards is a change like any other).
-`Watch` only stores the index, it never compares it. -/
-theorem watchers_only_test_for_change :
-    Generated.C01.watchKVActions =
-      ["for",
-       "> helper0#0, helper0#1, helper0#2 := helper0(p0, p1, v0, p3, p4, p5)",
-       "> helper0#2 != nil => call time.Sleep(time.Second)",
-       "> helper0#2 == nil & helper0#0 != v1 => send p2 <- helper0#0",
-       "> helper0#2 == nil & helper0#0 == v1 & helper0#1 != v0 => send p2 <- helper0#0",
-       "> helper0#2 == nil & helper0#0 != v1 => v1, v0 = helper0#0, helper0#1",
-       "> helper0#2 == nil & helper0#0 == v1 & helper0#1 != v0 => v1, v0 = helper0#0, helper0#1"] ∧
-    Generated.C01.watchIndexWrites = ["v0 = State#1.LastIndex"] ∧
-    Generated.C01.watchIndexConds = [] := by
-  repeat' apply And.intro
-  all_goals first | rfl | decide
-
 /-! ### `main.go` -/
 
-/-- `watchBackend` (v0 nextTable, v1 lastTable, v2 svccfg, v3 mancfg, v6 the buffer): receive one event; service
-text, "\n", manual text; skip when equal to the remembered text; `NewTable`; only if it succeeded `SetTable` and
-then `lastTable = nextTable`; `SetTable` is called nowhere else in the function. -/
-theorem watch_backend_loop_shape :
-    Generated.C01.watchBackendLoop =
-      ["select v2 = <-v7 | v3 = <-WatchManual#0",
-       "call v6.Reset()",
-       "call v6.WriteString(v2)",
-       "call v6.WriteString(\"\\n\")",
-       "call v6.WriteString(v3)",
-       "v0 = v6.String()",
-       "v0 != v1 => NewTable#0, v8 := route.NewTable(v6)",
-       "v0 != v1 & nil == v8 => call route.SetTable(NewTable#0)",
-       "v0 != v1 & nil == v8 => v1 = v0"] ∧
-    Generated.C01.watchBackendSetTableCalls = 1 := by
-  repeat' apply And.intro
-  all_goals first | rfl | decide
+/-- `SetTable` is called at exactly one place of `watchBackend` (the step machine has one installing transition) -/
+theorem set_table_called_once : Generated.C01.watchBackendSetTableCalls = 1 := by decide
 
 /-- the alias registration sits between the change test and `NewTable`, is called with the aliases parsed from the
 new text, and its result is discarded (an expression statement): the model's `stepOutReg`, whose table part is
-`stepOut` for every registration outcome (`register_outcome_irrelevant`); `NewTable`'s only guard is the change test
-(`watch_backend_loop_shape`). -/
+`stepOut` for every registration outcome (`register_outcome_irrelevant`). Stated over meaning, not spelling: the one
+call of a method `Register` in the loop is an expression statement — its result cannot reach a condition — and it
+stands before the `NewTable` call of the same statement list. -/
 theorem register_result_discarded :
-    Generated.C01.watchBackendRegister = ["v0 != v1 => call registry.Default.Register(ParseAliases#0)"] := by
-  decide
+    Generated.C01.watchBackendRegisterCalls = 1 ∧
+    Generated.C01.watchBackendRegisterDiscarded = 1 ∧
+    Generated.C01.watchBackendRegisterBeforeNewTable = true := by
+  repeat' apply And.intro
+  all_goals first | rfl | decide
 
 /-! ### the hand-over from the watchers to the table loop -/
 
